@@ -135,6 +135,9 @@ class MemFS:
         self.opens.append((p, mode, newline, encoding))
         if ("r" in mode) and p not in self.files:
             raise FileNotFoundError(p)
+        if "r" in mode and "b" not in mode and "+" not in mode:
+            import io
+            return io.StringIO(self.files[p])   # iteration, readline, context manager: as a real text file
         return self._File(p, mode)
 
     def snapshot(self):
